@@ -6,7 +6,7 @@
    code before the repair.  The theorems hold for every list of files and every iteration order of
    the hash maps (Extend::units, Fractions::unit/quantity are given as lists in iteration order);
    f64 is modelled by exact rationals, so "finite ratios" is built into the type. *)
-From CL Require Import Base.StrLemmas Model.Builder Model.BuilderSpec Proofs.BuilderProofs Proofs.BuilderExamples.
+From CL Require Import Base.StrLemmas Model.Builder Model.BuilderSpec Proofs.BuilderProofs Proofs.BuilderSI Proofs.BuilderExamples.
 From CL Require Import Gen.UnitsTomlFile Gen.UnitsSpanishFile Gen.UnitsLive.
 
 (* building never panics: a converter or a ConverterBuilderError *)
@@ -39,16 +39,14 @@ Theorem C16_best_threshold_offset_free :
 Proof. exact threshold_offset_free. Qed.
 Print Assumptions C16_best_threshold_offset_free.
 
-(* layers.  Proved: the default system is the last given (Metric when none); the best list of a
-   quantity is built from the list given last for it (same store shape, and its ids are exactly
-   the units the names resolve to in the final index); the all / metric / imperial fractions
-   settings are the last given, defaults filled in and clamped.  Extend blocks: see
-   [C16_precedence_extend], [C16_extend_aliases], [C16_extend_entries_address_key_owners] below.
-   Not proved in general, hence [_partial]: the names and symbols after several extend entries
-   (the SI forms follow the current names of their base unit; the monitor of checks/c16.py states
-   this by an independent fold over the layers and evaluates it on every generated
-   configuration) and the unit / quantity fractions tables. *)
-Theorem C16_precedence_partial :
+(* layers: the default system is the last given (Metric when none); the best list of a quantity is
+   built from the list given last for it (same store shape, and its ids are exactly the units the
+   names resolve to in the final index); the all / metric / imperial fractions settings are the
+   last given, defaults filled in and clamped.  The other layering statements are
+   [C16_precedence_si_tables], [C16_fractions_layers] (unit and quantity tables) and, for the
+   extend blocks, [C16_precedence_extend_blocks] with [C16_precedence_extend], [C16_extend_aliases],
+   [C16_extend_entries_address_key_owners], [C16_si_forms]. *)
+Theorem C16_precedence :
   forall files c, build cfg_new files = Done (ROk c) ->
     Some (c_default c) = last_given uf_default_system files (Some Metric) /\
     (forall q, exists b, last_best q files = Some b /\ best_from c q b) /\
@@ -56,7 +54,7 @@ Theorem C16_precedence_partial :
     cf_metric (c_fractions c) = defined (last_set fr_metric (fractions_layers files) None) /\
     cf_imperial (c_fractions c) = defined (last_set fr_imperial (fractions_layers files) None).
 Proof. exact build_layers. Qed.
-Print Assumptions C16_precedence_partial.
+Print Assumptions C16_precedence.
 
 (* the SI prefix tables in force when finish expands the units are the layered ones
    (Before prepends, After appends, Override replaces) *)
@@ -105,11 +103,43 @@ Theorem C16_precedence_edit_rule : forall u e p, edit_unit u e p = layered_unit 
 Proof. exact edit_unit_layered. Qed.
 Print Assumptions C16_precedence_edit_rule.
 
-(* SI forms: stated, not proved in general (the monitor of checks/c16.py evaluates it on the
-   implementation's converter for every generated configuration; [C16_si_forms_shipped] below is
-   the computation on the shipped files) *)
+(* SI forms: every `prefix ++ name` and `symbol_prefix ++ symbol` of a unit declared with
+   expand_si - names, symbols and ratio as they are after all the extend blocks, prefixes from the
+   layered tables - resolves to a unit of the same quantity whose ratio is ratio * 10^k.
+   Invariant (Proofs/BuilderSI.v, [SIV]): every expansion is the prefixed form of its base as the base
+   is now, and no expansion has two bases; through the expansion loop of finish and every extend entry *)
 Definition C16_si_forms_statement : Prop :=
   forall files c, build cfg_new files = Done (ROk c) -> si_forms_ok files c.
+
+Theorem C16_si_forms : C16_si_forms_statement.
+Proof. exact build_si_forms. Qed.
+Print Assumptions C16_si_forms.
+
+(* fractions: what Fractions::config answers for a unit is, field by field, the first of: the last
+   per-unit entry whose key is a key of the unit, the last setting of its quantity, of its system,
+   of `all` - each of them taken over ALL the layers (so a broader setting given by a later layer
+   reaches the units configured earlier); a unit without entry gets the most specific table entry *)
+Theorem C16_fractions_layers :
+  forall files c, build cfg_new files = Done (ROk c) ->
+    forall t u, nth_error (c_units c) t = Some u ->
+      fractions_config (c_fractions c) (usystem u) (quantity u) t = resolved_fractions files c t u.
+Proof. exact build_fractions_layers. Qed.
+Print Assumptions C16_fractions_layers.
+
+(* all the extend blocks of a build.  The units the blocks start from are the declared units, as
+   declared and in order, followed by their SI forms ([SIV]); the blocks apply in the order of the
+   files; the entries of a block address the units that own their keys when the block starts; a block
+   leaves every unit that is not an SI form exactly as the entries addressed to it say
+   ([unit_after]: names, symbols, aliases prepended / appended / replaced by the precedence of the
+   block, ratio and difference replaced), changes the aliases of every unit - SI forms included -
+   only through the entries addressed to it ([aliases_after]), and every SI form is again the
+   prefixed form of its base as the base is after the block ([SIV]); the units of the converter are
+   the result.  ([blocks_run], [block_effect]: Proofs/BuilderSI.v; the units carry the builder's
+   flags, [c_units c] is their projection.) *)
+Theorem C16_precedence_extend_blocks :
+  forall files c, build cfg_new files = Done (ROk c) -> extend_run_ok files c.
+Proof. exact build_extend_run. Qed.
+Print Assumptions C16_precedence_extend_blocks.
 
 (* the shipped configuration: units.toml builds the converter Converter::default() holds (dump of
    the running implementation, regenerated on every run), and units.toml + units/spanish.toml the
@@ -142,6 +172,16 @@ Example C16_witnesses_rejected_now :
   build cfg_new w_panic = Done (RErr (EBestUnitQuantity s_ml Mass)) /\
   build cfg_new w_accept = Done (RErr (EBestUnitQuantity s_ml Mass)).
 Proof. split; [exact w_panic_now | exact w_accept_now]. Qed.
+
+Example C16_fractions_later_layer :
+  match build cfg_new w_frac with
+  | Done (ROk c) =>
+      let r := fractions_config (c_fractions c) None Mass 4 in
+      fc_enabled r && (fc_max_den r =? 8)%N
+      && opt_eqb Nat.eqb (find_unit c s_g) (Some 4%nat)
+  | _ => false
+  end = true.
+Proof. exact fractions_later_layer_example. Qed.
 
 Example C16_si_forms_shipped : shipped_ok [units_toml] = true /\ shipped_ok [units_toml; units_spanish] = true.
 Proof. exact si_forms_shipped. Qed.
